@@ -51,6 +51,9 @@ class VFSZip(VFS_Real):
 
     def save_cache(self) -> bool:
         cache_filename = self.get_cache_filename()
+        if not self.chain.iswritable(cache_filename):
+            # e.g. an archive inside another archive
+            return False
         cache_fspath = self.chain.getfspath(cache_filename)
         try:
             with shelve.open(cache_fspath, "n") as db:
@@ -63,6 +66,10 @@ class VFSZip(VFS_Real):
 
     def init_cache(self) -> None:
         cache_filename = self.get_cache_filename()
+        if not self.chain.iswritable(cache_filename):
+            # No place to keep a cache (an archive inside another archive)
+            self.populate_cache()
+            return
         zipfile_mtime = self.chain.stat(self.zipfilename)[stat.ST_MTIME]
         try:
             cache_mtime = self.chain.stat(cache_filename)[stat.ST_MTIME]
@@ -385,8 +392,11 @@ class ZIPHandler(BaseHandler):
         while True:
 
             if pattern.search(basename) and self.vfs.isfile(basename):
-                # is_zipfile() accepts filenames as bytes, but the type stub is incorrect
-                if zipfile.is_zipfile(self.vfs.getfspath(basename)):  # noqa
+                # Look at the file through the VFS: the path of a member of
+                # another archive does not exist in the real file system.
+                with self.vfs.open(basename, "rb") as fp:
+                    iszip = zipfile.is_zipfile(fp)
+                if iszip:
                     self.basename = basename
                     self.appendage = appendage
                     return True
